@@ -33,6 +33,11 @@ func (n *ThreadedNewsYAML) CreateGrouping(newsPath []string, name string, t [2]b
 	defer n.mu.Unlock()
 
 	cats := n.getCatByPath(newsPath)
+	// Creating an item under a name that is already taken must not replace the existing category or
+	// bundle: that would silently discard every article and sub-item in it.
+	if _, exists := cats[name]; exists {
+		return fmt.Errorf("news item %q already exists", name)
+	}
 	cats[name] = hotline.NewsCategoryListData15{
 		Name:     name,
 		Type:     t,
